@@ -180,6 +180,13 @@ func watchdog() {
 		if verdict == "lock-across-store-call" {
 			res.Viol = append(res.Viol, h.Violation{Prop: "C09", Clause: "lock-across-store-call", Sig: "lock-held-across-store-call:" + frames,
 				Detail: "a store call is in flight on a goroutine that holds a library lock which these are waiting for (a stop call would wait as long as the store takes): " + frames})
+			if ls := h.LeadersNow(); len(ls) > 0 {
+				// every demotion path needs that lock as well: a leader cut off from the store (the
+				// call in flight is not being answered) keeps reporting leadership for as long as
+				// the store takes - there is no bound
+				res.Viol = append(res.Viol, h.Violation{Prop: "C03", Clause: "lock-across-store-call", Sig: "lock-held-across-store-call:" + frames,
+					Detail: fmt.Sprintf("a store call is in flight on a goroutine that holds a library lock while %v report(s) leadership: no demotion can complete before the store answers; waiting for the lock: %s", ls, frames)})
+			}
 			res.Fatal = "lock-across-store-call"
 		} else if verdict == "process-global-wait" {
 			prop := stallProp(spec)
